@@ -1,7 +1,7 @@
 (* C01 — Exposure limits bound every order that reaches the exchange.  Statements only. *)
 From Coq Require Import ZArith List Bool.
 From V Require Import Model.Num Model.Status Model.Exposure Model.ExposureSpec Model.ExposureCtl Gen.StatusC
-  Proofs.ExposureP Proofs.ExposureCtlP Model.C16Cases.
+  Proofs.ExposureP Proofs.ExposureCtlP Proofs.ExposureHistP Model.C16Cases.
 Open Scope Z_scope.
 
 (* 1. decision for a NEW order: accepted => every configured limit holds with the order counted in full
@@ -28,6 +28,47 @@ Theorem C01_selection_invariant : forall tb pending lim orders active nwin o m,
   - worst true (pos ++ [o]) <= 100 * m + 100 /\ - worst false (pos ++ [o]) <= 100 * m + 100.
 Proof. exact place_keeps_selection_within_limit. Qed.
 Print Assumptions C01_selection_invariant.
+
+(* ... lifted to whole histories: starting from no orders, for ANY sequence of placements accepted by the control (each checked against
+   the orders as they are at that moment) interleaved with ANY sequence of exchange-side changes that do not make an order worse in either
+   outcome (fills at the limit price or better, partial or full cancellation, lapse, completion - the two theorems below), the true
+   worst-case loss of the strategy on the selection, over every combination of fills of what is still open, stays within limit + one
+   penny, in both outcomes.  (Price replacements are not among the steps: see C01_replace_refuted.) *)
+Theorem C01_history_selection_bound : forall tb pending lim active nwin sel m, max_sel lim = Some m -> forall orders, 0 <= m + 1 ->
+  reach tb pending lim active nwin sel orders -> within pending m orders.
+Proof. exact reach_within. Qed.
+Print Assumptions C01_history_selection_bound.
+Theorem C01_fill_is_an_improvement : forall pending o d avg',
+  o_kind o = KLimit false -> o_complete o = false -> wf_o o = true -> 100 <= o_price o -> 0 <= d <= o_remaining o -> 100 <= avg' ->
+  (match o_side o with
+   | Back => (o_avg o - 100) * o_matched o + (o_price o - 100) * d <= (avg' - 100) * (o_matched o + d)
+   | Lay  => (avg' - 100) * (o_matched o + d) <= (o_avg o - 100) * o_matched o + (o_price o - 100) * d
+   end) ->
+  improves pending o (with_sizes o (o_matched o + d) avg' (o_remaining o - d) false).
+Proof. exact fill_improves. Qed.
+Theorem C01_cancel_lapse_completion_are_improvements : forall pending o rem' c,
+  o_kind o = KLimit false -> wf_o o = true -> 0 <= rem' <= o_remaining o -> (o_complete o = true -> c = true) ->
+  improves pending o (with_sizes o (o_matched o) (o_avg o) rem' c).
+Proof. exact shrink_improves. Qed.
+Print Assumptions C01_cancel_lapse_completion_are_improvements.
+(* non-vacuity: place BACK 5@3.0, it fills 2.00 at 3.2, place LAY 4@2.5: a reachable history under selection limit 9 *)
+Example C01_history_example :
+  let lim := {| max_order := None; max_sel := Some 900; max_mkt := None |} in
+  let o1 := mk 1 7 Back (KLimit false) SNone false 0 0 500 300 0 in
+  let o1' := with_sizes o1 200 320 300 false in
+  let o2 := mk 2 7 Lay (KLimit false) SNone false 0 0 400 250 0 in
+  reach tb_up PENDING_STATUS lim 3 1 7 [o1'; o2] /\ within PENDING_STATUS 900 [o1'; o2].
+Proof.
+  cbv zeta.
+  assert (R : reach tb_up PENDING_STATUS {| max_order := None; max_sel := Some 900; max_mkt := None |} 3 1 7
+                    [with_sizes (mk 1 7 Back (KLimit false) SNone false 0 0 500 300 0) 200 320 300 false; mk 2 7 Lay (KLimit false) SNone false 0 0 400 250 0]).
+  { eapply reach_step; [eapply reach_step; [eapply reach_step; [apply reach_nil|]|]|].
+    - apply (step_place tb_up PENDING_STATUS _ 3 1 7 [] (mk 1 7 Back (KLimit false) SNone false 0 0 500 300 0)); vm_compute; repeat split; try reflexivity; try discriminate.
+    - apply (step_change tb_up PENDING_STATUS _ 3 1 7 [] (mk 1 7 Back (KLimit false) SNone false 0 0 500 300 0) (with_sizes (mk 1 7 Back (KLimit false) SNone false 0 0 500 300 0) 200 320 300 false) []).
+      apply (fill_improves PENDING_STATUS (mk 1 7 Back (KLimit false) SNone false 0 0 500 300 0) 200 320); vm_compute; try reflexivity; try discriminate; split; discriminate.
+    - apply (step_place tb_up PENDING_STATUS _ 3 1 7 [with_sizes (mk 1 7 Back (KLimit false) SNone false 0 0 500 300 0) 200 320 300 false] (mk 2 7 Lay (KLimit false) SNone false 0 0 400 250 0)); vm_compute; repeat split; try reflexivity; try discriminate. }
+  split; [exact R|]. apply (reach_within tb_up PENDING_STATUS {| max_order := None; max_sel := Some 900; max_mkt := None |} 3 1 7 900 eq_refl); [discriminate|exact R].
+Qed.
 
 (* 2. refusal: exactly when one of the three tests fails *)
 Theorem C01_refusal_iff : forall tb pending lim k orders active nwin o,
